@@ -272,9 +272,13 @@ def multi_task(sl):
             observe("values of task %s are its own" % t, rows[0][2] is vals[("baseline", t)] and rows[0][3] is vals[("contender", t)])
 
 
+# index and field names are the user's: a name that contains the word of another metric says nothing about the direction of a size
+THROUGHPUT_FIELD = "net.Throughput_bytes"
+
+
 def disk_usage_fields(sl):
     """two fields of one index with symbolic sizes on each side: a field present in both races is listed once with its own values"""
-    keys = [(side, f) for side in ("baseline", "contender") for f in ("f1", "f2")]
+    keys = [(side, f) for side in ("baseline", "contender") for f in ("f1", THROUGHPUT_FIELD)]
     has = {k: bool(sl["mask"] >> i & 1) for i, k in enumerate(keys)}
     vals = {k: fresh_real("bytes_%s_%s" % k, 0) for k in has}
     for v in vals.values():
@@ -282,7 +286,7 @@ def disk_usage_fields(sl):
 
     def res(side):
         d = {"disk_usage_" + k: [] for k in ("inverted_index", "stored_fields", "doc_values", "points", "norms", "term_vectors")}
-        d["disk_usage_total"] = [{"index": "idx", "field": f, "value": vals[(side, f)], "unit": "byte"} for f in ("f1", "f2") if has[(side, f)]]
+        d["disk_usage_total"] = [{"index": "idx", "field": f, "value": vals[(side, f)], "unit": "byte"} for f in ("f1", THROUGHPUT_FIELD) if has[(side, f)]]
         return d
 
     r = _reporter()
@@ -290,7 +294,7 @@ def disk_usage_fields(sl):
         rich = r._metrics_table(metrics.GlobalStats(res("baseline")), metrics.GlobalStats(res("contender")), plain=False)
     core.trace("rows", len(rich))
     core.note("rows", [[strip(x) if isinstance(x, str) else "<num>" for x in row] for row in rich])
-    for f in ("f1", "f2"):
+    for f in ("f1", THROUGHPUT_FIELD):
         rows = [row for row in rich if row[0] == "idx %s total" % f]
         if has[("baseline", f)] and has[("contender", f)]:
             observe("field %s present in both races is listed exactly once" % f, len(rows) == 1)
